@@ -47,6 +47,11 @@ def configs(tier):
                 pat = 'corner'
             out.append({'name': 'zygo-roundtrip-%dx%d-%s' % (shp[0], shp[1], pat), 'kind': 'roundtrip', 'shape': list(shp), 'nan': pat})
     out.append({'name': 'ifg-roundtrip-2x3', 'kind': 'ifg', 'shape': [2, 3], 'nan': 'corner'})
+    # dx = 0 is the documented "no lateral calibration" value; column-major (transposed / asfortranarray) input maps
+    out.append({'name': 'zygo-roundtrip-2x3-no-lateral-calibration', 'kind': 'roundtrip', 'shape': [2, 3], 'nan': 'corner', 'dx0': True})
+    out.append({'name': 'ifg-roundtrip-2x3-no-lateral-calibration', 'kind': 'ifg', 'shape': [2, 3], 'nan': 'none', 'dx0': True})
+    out.append({'name': 'zygo-roundtrip-3x2-column-major', 'kind': 'roundtrip', 'shape': [3, 2], 'nan': 'corner', 'layout': 'F'})
+    out.append({'name': 'ifg-roundtrip-2x3-column-major', 'kind': 'ifg', 'shape': [2, 3], 'nan': 'corner', 'layout': 'F'})
     cuts = [HEADER + 4 * k for k in range(0, 6)] + [HEADER + 5, HEADER + 18, HEADER + 23]
     if not q:
         cuts = sorted(set(range(HEADER, HEADER + 24)))
@@ -131,11 +136,14 @@ def run(cfg, H):
     io = H.mod('prysm.io')
     k = cfg['kind']
     m, n = cfg['shape']
-    dx = H.frac(1, 4)
+    dx = 0 if cfg.get('dx0') else H.frac(1, 4)
+    dx_f = 0.0 if cfg.get('dx0') else 0.25
     # not the writers' default wavelength (0.6328) for the Interferogram pair and for odd-sized maps
     wvl = H.frac(1064, 1000) if (k == 'ifg' or (m * n) % 2) else H.frac(6328, 10000)
     wvl_f = 1.064 if (k == 'ifg' or (m * n) % 2) else 0.6328
     ph, nanset, amp = build(H, cfg)
+    if cfg.get('layout') == 'F':
+        ph = H.asarray(np.asfortranarray(ph))
     step = wvl / 1000000 / 32768 * 1000000000        # nm per count (phase_res 1 -> 32768 counts per wave)
     if k in ('roundtrip', 'ifg'):
         f = H.memfile()
@@ -144,7 +152,7 @@ def run(cfg, H):
             res = io.read_zygo_dat(f)
             got = res['phase']
             meta = res['meta']
-            H.holds('lateral resolution survives (float32 header field)', abs(float(meta['lateral_resolution']) * 1000 - 0.25) < 1e-6)
+            H.holds('lateral resolution survives (float32 header field)', abs(float(meta['lateral_resolution']) * 1000 - dx_f) < 1e-6)
             H.holds('wavelength survives (float32 header field)', abs(float(meta['wavelength']) * 1e6 - wvl_f) < 1e-6)
         else:
             I = H.mod('prysm.interferogram')
@@ -152,7 +160,7 @@ def run(cfg, H):
             ifg.save_zygo_dat(f)
             back = I.Interferogram.from_zygo_dat(f)
             got = back.data
-            H.holds('Interferogram dx survives the file', abs(float(back.dx) - 0.25) < 1e-5)
+            H.holds('Interferogram dx survives the file', abs(float(back.dx) - dx_f) < 1e-5)
             H.holds('Interferogram wavelength survives the file', abs(float(back.wavelength) - wvl_f) < 1e-5)
         _same_map(H, got, ph, nanset, (m, n), step)
     elif k == 'trunc':
